@@ -70,12 +70,12 @@ Ltac evalz := repeat match goal with
   end.
 Ltac acos2atan := repeat match goal with
   |- context [acos ?x] => rewrite (acos_atan x) by interval end; unfold Rsqr.
-Ltac tv := repeat autounfold with c09defs; evalconds; evalz; acos2atan; timeout 45 (interval with (i_prec 90)).
+Ltac tv := repeat autounfold with c09defs; evalconds; evalz; acos2atan; timeout 120 (interval with (i_prec 90)).
 (* the upper limit must not contain the literal 0 (= the lower limit): Interval 4.6 fails to
    reify the goal otherwise; zeros outside binders are simplified first *)
 Ltac inst := unfold rbasex_proj; unfold Abel, AbelW, tri, quad2, herm_p, herm_q, pos; cbv beta;
   rewrite ?Rmult_0_l, ?Rmult_0_r, ?Rplus_0_l, ?Rminus_0_r;
-  timeout 45 (integral with (i_prec 60, i_fuel 2000, i_degree 6)).
+  timeout 120 (integral with (i_prec 60, i_fuel 2000, i_degree 6)).
 '''
 
 
@@ -324,7 +324,7 @@ def inst_goals(fb, D, rng, quick):
             v = float(Mc[i, k])
             tol = up_pow2(2.0 ** -36 * max(v, 1e-290))
             add('basex_rho[s=%s][%d,%d]' % (sigma, i, k), v, 'basex_rho %d %s %d' % (k * k, rlit(Fraction(sigma)), i), tol,
-                'unfold basex_rho; timeout 45 (interval with (i_prec 100))')
+                'unfold basex_rho; timeout 120 (interval with (i_prec 100))')
     return goals, samples
 
 
